@@ -6,6 +6,7 @@ import (
 	"go/parser"
 	"go/token"
 	"go/types"
+	"sort"
 	"strings"
 
 	"verif/checker/core"
@@ -46,7 +47,7 @@ func init() {
 		Title: "serialization keeps no state between uses",
 		Text: "The serialization and hashing packages (restlicodec, fnv1a, restli/equals, restli/batchkeyset) declare no package-level sync.Pool, cache map or other mutable variable reachable from writers (the custom-typeref registry, keyed by type and holding immutable adapters, is the one listed exception), " +
 			"and key-set encoders do not memoise: a method that stores an encoding into its receiver requires every mutator of that receiver to reset the same field.",
-		Props: []string{"C09", "C16"},
+		Props: []string{"C09", "C16", "C01", "C03"},
 		Floor: map[string]int{"v2": 5, "root": 4},
 		Run:   runR095,
 	})
@@ -664,7 +665,11 @@ func runR155(c *core.Ctx) {
 	_, fd := mustDecl(c, rel, "(*Client).formatQueryUrl")
 	// the root variable: assigned from rp.RootResource()
 	var rootObj types.Object
-	defs := map[types.Object][]ast.Expr{}
+	type def struct {
+		rhs ast.Expr
+		end token.Pos
+	}
+	defs := map[types.Object][]def{}
 	ast.Inspect(fd.Body, func(x ast.Node) bool {
 		if as, ok := x.(*ast.AssignStmt); ok && len(as.Lhs) == len(as.Rhs) {
 			for i, l := range as.Lhs {
@@ -672,7 +677,7 @@ func runR155(c *core.Ctx) {
 				if o == nil {
 					continue
 				}
-				defs[o] = append(defs[o], as.Rhs[i])
+				defs[o] = append(defs[o], def{as.Rhs[i], as.End()})
 				if call, ok := core.Unparen(as.Rhs[i]).(*ast.CallExpr); ok {
 					if f := core.Callee(inf, call); f != nil && f.Name() == "RootResource" {
 						rootObj = o
@@ -686,8 +691,10 @@ func runR155(c *core.Ctx) {
 		c.Unknown(rel, "(*Client).formatQueryUrl", "root resource variable", fd.Pos(), "no local assigned from RootResource()")
 		return
 	}
-	var normalised func(e ast.Expr, depth int) bool
-	normalised = func(e ast.Expr, depth int) bool {
+	// normalised(e, at): e — evaluated at position at — derives from a TrimSuffix(…, "/") result; only definitions whose
+	// statement is complete before `at` count (the match may sit inside the very assignment that normalises later)
+	var normalised func(e ast.Expr, depth int, at token.Pos) bool
+	normalised = func(e ast.Expr, depth int, at token.Pos) bool {
 		found := false
 		ast.Inspect(e, func(x ast.Node) bool {
 			switch y := x.(type) {
@@ -701,7 +708,7 @@ func runR155(c *core.Ctx) {
 			case *ast.Ident:
 				if o := inf.Uses[y]; o != nil && depth < 4 {
 					for _, d := range defs[o] {
-						if normalised(d, depth+1) {
+						if d.end <= at && normalised(d.rhs, depth+1, d.end) {
 							found = true
 						}
 					}
@@ -734,7 +741,7 @@ func runR155(c *core.Ctx) {
 		desc := fmt.Sprintf("root match #%d (strings.%s) looks at the last segment of a normalised path", n, f.Name())
 		switch f.Name() {
 		case "LastIndex", "HasSuffix", "TrimSuffix":
-			c.Check(normalised(call.Args[0], 0), rel, "(*Client).formatQueryUrl", desc, call.Pos(), "subject derives from TrimSuffix(…, \"/\")",
+			c.Check(normalised(call.Args[0], 0, call.Pos()), rel, "(*Client).formatQueryUrl", desc, call.Pos(), "subject derives from TrimSuffix(…, \"/\")",
 				"the subject "+core.ExprString(call.Args[0])+" still carries the resolver's trailing slash when the root name is matched: a base ending in /"+"<root>/ keeps its root segment and the request has it twice")
 		default:
 			c.Bad(rel, "(*Client).formatQueryUrl", desc, call.Pos(), "strings."+f.Name()+" does not anchor the match at the last segment: an earlier segment sharing the root's prefix (/searcher/search) hides the final one")
@@ -848,7 +855,7 @@ func init() {
 		Text: "In every non-test function of the module that hands a local object to (*sync.Pool).Put (directly or deferred), nothing that aliases the object — the object itself, a field of reference type, the result of a method on it that returns a slice, pointer, map or interface (bytes.Buffer.Bytes), a slice of those — " +
 			"is returned, assigned to a result variable, or stored outside the function's own locals. A later Get hands the same memory to another request, which then overwrites what the first caller still holds. " +
 			"A synthetic positive control (a function returning buf.Bytes() of a pooled buffer) must be recognised on every run.",
-		Props: []string{"C17", "C14"},
+		Props: []string{"C17", "C14", "C02"},
 		Floor: map[string]int{"v2": 1, "root": 1},
 		Run:   runR177,
 	})
@@ -857,7 +864,7 @@ func init() {
 // pooledEscapes lists the escapes of pooled objects in one function body.
 func pooledEscapes(fset interface {
 	Position(token.Pos) token.Position
-}, inf *types.Info, ftype *ast.FuncType, body *ast.BlockStmt) (puts int, problems []string) {
+}, eng *aliasEngine, inf *types.Info, ftype *ast.FuncType, body *ast.BlockStmt) (puts int, problems []string) {
 	pooled := map[types.Object]bool{}
 	ast.Inspect(body, func(x ast.Node) bool {
 		if call, ok := x.(*ast.CallExpr); ok && len(call.Args) == 1 {
@@ -873,92 +880,9 @@ func pooledEscapes(fset interface {
 	if len(pooled) == 0 {
 		return puts, nil
 	}
-	results := map[types.Object]bool{}
-	if ftype.Results != nil {
-		for _, f := range ftype.Results.List {
-			for _, n := range f.Names {
-				results[inf.Defs[n]] = true
-			}
-		}
-	}
-	isRef := func(t types.Type) bool {
-		if t == nil {
-			return false
-		}
-		switch t.Underlying().(type) {
-		case *types.Slice, *types.Pointer, *types.Map, *types.Interface, *types.Chan:
-			return true
-		}
-		return false
-	}
-	aliases := map[types.Object]bool{}
-	for o := range pooled {
-		aliases[o] = true
-	}
-	var alias func(e ast.Expr) bool
-	alias = func(e ast.Expr) bool {
-		switch y := core.Unparen(e).(type) {
-		case *ast.Ident:
-			return aliases[core.ObjOf(inf, y)]
-		case *ast.SliceExpr:
-			return alias(y.X)
-		case *ast.StarExpr:
-			return false // a copy of the pointee
-		case *ast.UnaryExpr:
-			return y.Op == token.AND && alias(y.X)
-		case *ast.SelectorExpr:
-			if fv, ok := core.ObjOf(inf, y).(*types.Var); ok && fv.IsField() {
-				return alias(y.X) && isRef(fv.Type())
-			}
-		case *ast.TypeAssertExpr:
-			return alias(y.X)
-		case *ast.CallExpr:
-			if tv, ok := inf.Types[y.Fun]; ok && tv.IsType() {
-				// conversion: string(b) copies, []byte(s) copies; named-slice conversions alias
-				if len(y.Args) == 1 && alias(y.Args[0]) {
-					if b, ok := tv.Type.Underlying().(*types.Basic); ok && b.Info()&types.IsString != 0 {
-						return false
-					}
-					return true
-				}
-				return false
-			}
-			if id, ok := core.Unparen(y.Fun).(*ast.Ident); ok && id.Name == "append" && len(y.Args) > 0 {
-				return alias(y.Args[0])
-			}
-			if sel, ok := core.Unparen(y.Fun).(*ast.SelectorExpr); ok && alias(sel.X) {
-				if sig, ok := inf.Types[y.Fun].Type.(*types.Signature); ok && sig.Results().Len() >= 1 {
-					return isRef(sig.Results().At(0).Type())
-				}
-			}
-		}
-		return false
-	}
-	isOwnLocal := func(l ast.Expr) (types.Object, bool) {
-		id, ok := core.Unparen(l).(*ast.Ident)
-		if !ok {
-			return nil, false
-		}
-		o := core.ObjOf(inf, id)
-		if o == nil || results[o] || o.Parent() == nil || o.Pkg() == nil || o.Parent() == o.Pkg().Scope() {
-			return o, false
-		}
-		return o, o.Pos() >= body.Pos() && o.Pos() <= body.End()
-	}
-	for changed := true; changed; {
-		changed = false
-		ast.Inspect(body, func(x ast.Node) bool {
-			if as, ok := x.(*ast.AssignStmt); ok && len(as.Lhs) == len(as.Rhs) {
-				for i, l := range as.Lhs {
-					if o, own := isOwnLocal(l); own && !aliases[o] && alias(as.Rhs[i]) {
-						aliases[o] = true
-						changed = true
-					}
-				}
-			}
-			return true
-		})
-	}
+	st := eng.flow(inf, ftype, body, pooled, 0)
+	alias := st.alias
+	isOwnLocal := st.isOwnLocal
 	seen := map[string]bool{}
 	report := func(pos token.Pos, msg string) {
 		m := fmt.Sprintf("%s:%d: %s", shortFile(fset.Position(pos).Filename), fset.Position(pos).Line, msg)
@@ -977,8 +901,28 @@ func pooledEscapes(fset interface {
 					report(r.Pos(), "returns "+core.ExprString(r)+", which aliases an object handed back to the pool")
 				}
 			}
+			if len(y.Results) == 0 {
+				for o := range st.results {
+					if st.aliases[o] {
+						report(y.Pos(), "returns the named result "+o.Name()+", which aliases an object handed back to the pool")
+					}
+				}
+			}
 		case *ast.AssignStmt:
 			if len(y.Lhs) != len(y.Rhs) {
+				if len(y.Rhs) == 1 {
+					if call, ok := core.Unparen(y.Rhs[0]).(*ast.CallExpr); ok {
+						ra := st.callResults(call)
+						for i, l := range y.Lhs {
+							if _, own := isOwnLocal(l); !own && ra[i] {
+								if id, ok := core.Unparen(l).(*ast.Ident); ok && id.Name == "_" {
+									continue
+								}
+								report(l.Pos(), core.ExprString(l)+" receives a result of "+core.ExprString(call.Fun)+" that aliases an object handed back to the pool")
+							}
+						}
+					}
+				}
 				return true
 			}
 			for i, l := range y.Lhs {
@@ -1003,6 +947,7 @@ func shortFile(name string) string {
 }
 
 func runR177(c *core.Ctx) {
+	eng := &aliasEngine{mod: c.M, memo: map[*types.Func]map[int]map[int]bool{}, inprog: map[*types.Func]bool{}}
 	funcs, puts := 0, 0
 	for _, p := range c.M.Roots {
 		inf := p.TypesInfo
@@ -1017,7 +962,7 @@ func runR177(c *core.Ctx) {
 					continue
 				}
 				funcs++
-				n, problems := pooledEscapes(c.M.Fset, inf, fd.Type, fd.Body)
+				n, problems := pooledEscapes(c.M.Fset, eng, inf, fd.Type, fd.Body)
 				puts += n
 				if n > 0 {
 					c.Check(len(problems) == 0, rel, core.DeclName(fd), "nothing aliasing a pooled object leaves the function", fd.Pos(), fmt.Sprintf("%d Put calls", n), strings.Join(problems, "; "))
@@ -1064,7 +1009,7 @@ func fine(p []byte) string {
 	got := map[string]int{}
 	for _, d := range f.Decls {
 		if fd, ok := d.(*ast.FuncDecl); ok && fd.Body != nil {
-			_, problems := pooledEscapes(c.M.Fset, inf, fd.Type, fd.Body)
+			_, problems := pooledEscapes(c.M.Fset, &aliasEngine{memo: map[*types.Func]map[int]map[int]bool{}, inprog: map[*types.Func]bool{}}, inf, fd.Type, fd.Body)
 			got[fd.Name.Name] = len(problems)
 		}
 	}
@@ -1083,7 +1028,7 @@ func init() {
 		Text: "In package restli every function literal that takes a *RequestContext, *http.Request or http.ResponseWriter (code that runs once per request, concurrently) " +
 			"never assigns, increments, takes the address of, or decodes into a variable declared outside itself (one instance shared by every request to that route): " +
 			"such a variable makes one request observe another's parameters and is a data race. Reads of captured configuration are fine.",
-		Props: []string{"C17"},
+		Props: []string{"C17", "C02"},
 		Floor: map[string]int{"v2": 10, "root": 10},
 		Run:   runR178,
 	})
@@ -1337,4 +1282,1557 @@ func runR067(c *core.Ctx) {
 	if n < 3 {
 		c.Unknown(rel, "-", "atInputStart implementations", token.NoPos, fmt.Sprintf("found %d", n))
 	}
+}
+
+func init() {
+	core.Register(&core.Rule{
+		ID:    "R12.6",
+		Title: "append never grows one object's slice into another variable",
+		Text: "In the generator and runtime packages every `y = append(x, …)` either stores back into the operand it grew (y is x), or grows a slice this function owns (nil, a literal, make, a conversion, a local that was itself built that way, or a full-slice expression x[:n:n] that forces a copy). " +
+			"`all := append(r.ReadOnlyFields, r.CreateOnlyFields...)` writes into the spare capacity of r.ReadOnlyFields; a later in-place sort or a second append through the original then rewrites the other list (the generated exclusion specs, required-field lists, key lists).",
+		Props: []string{"C07", "C12", "C06"},
+		Floor: map[string]int{"v2": 20, "root": 10},
+		Run:   runR126,
+	})
+}
+
+func runR126(c *core.Ctx) {
+	n := 0
+	for _, p := range c.M.Roots {
+		inf := p.TypesInfo
+		rel := c.M.Rel(p.PkgPath)
+		for _, file := range p.Syntax {
+			fname := c.M.Fset.File(file.Pos()).Name()
+			if strings.HasSuffix(fname, "_test.go") || strings.HasSuffix(fname, ".gr.go") {
+				continue
+			}
+			for _, d := range file.Decls {
+				fd, ok := d.(*ast.FuncDecl)
+				if !ok || fd.Body == nil {
+					continue
+				}
+				// locals owned by this function: defined from nil / literal / make / conversion / append of an owned operand
+				owned := map[types.Object]bool{}
+				var ownedExpr func(e ast.Expr) bool
+				ownedExpr = func(e ast.Expr) bool {
+					switch y := core.Unparen(e).(type) {
+					case *ast.Ident:
+						return core.IsNil(inf, y) || owned[core.ObjOf(inf, y)]
+					case *ast.CompositeLit:
+						return true
+					case *ast.SliceExpr:
+						if y.Slice3 {
+							return true
+						}
+						return ownedExpr(y.X)
+					case *ast.CallExpr:
+						if tv, ok := inf.Types[y.Fun]; ok && tv.IsType() {
+							return len(y.Args) == 1 && (core.IsNil(inf, y.Args[0]) || ownedExpr(y.Args[0]) || isStringType(inf, y.Args[0]))
+						}
+						if id, ok := core.Unparen(y.Fun).(*ast.Ident); ok {
+							switch id.Name {
+							case "make":
+								return true
+							case "append":
+								return len(y.Args) > 0 && ownedExpr(y.Args[0])
+							}
+						}
+						// a call result is a fresh value as far as this function is concerned (callee's business)
+						return true
+					}
+					return false
+				}
+				for changed := true; changed; {
+					changed = false
+					ast.Inspect(fd.Body, func(x ast.Node) bool {
+						switch y := x.(type) {
+						case *ast.AssignStmt:
+							if len(y.Lhs) != len(y.Rhs) {
+								return true
+							}
+							for _, l := range y.Lhs {
+								id, ok := core.Unparen(l).(*ast.Ident)
+								if !ok {
+									continue
+								}
+								o := core.ObjOf(inf, id)
+								if o == nil || owned[o] || o.Pos() < fd.Body.Pos() || o.Pos() > fd.Body.End() {
+									continue
+								}
+								// every definition of o must be owned
+								if allDefsOwned(inf, fd, o, ownedExpr) {
+									owned[o] = true
+									changed = true
+								}
+							}
+						case *ast.ValueSpec:
+							for i, nm := range y.Names {
+								o := inf.Defs[nm]
+								if o != nil && !owned[o] && (len(y.Values) == 0 || (i < len(y.Values) && ownedExpr(y.Values[i]))) && allDefsOwned(inf, fd, o, ownedExpr) {
+									owned[o] = true
+									changed = true
+								}
+							}
+						}
+						return true
+					})
+				}
+				ast.Inspect(fd.Body, func(x ast.Node) bool {
+					as, ok := x.(*ast.AssignStmt)
+					if !ok || len(as.Lhs) != len(as.Rhs) {
+						return true
+					}
+					for i, r := range as.Rhs {
+						call, ok := core.Unparen(r).(*ast.CallExpr)
+						if !ok || len(call.Args) == 0 {
+							continue
+						}
+						if id, ok := core.Unparen(call.Fun).(*ast.Ident); !ok || id.Name != "append" {
+							continue
+						} else if _, isB := inf.Uses[id].(*types.Builtin); !isB {
+							continue
+						}
+						n++
+						src := call.Args[0]
+						base := core.Unparen(src)
+						for {
+							se, ok := base.(*ast.SliceExpr) // x = append(x[:i], …): the insert / delete idiom still stores back
+							if !ok {
+								break
+							}
+							base = core.Unparen(se.X)
+						}
+						okSite := core.SameExpr(inf, as.Lhs[i], src) || core.SameExpr(inf, as.Lhs[i], base) || ownedExpr(src)
+						c.Check(okSite, rel, core.DeclName(fd), fmt.Sprintf("append #%d stores back into its operand or grows an owned slice", ordinal(fd, call)), call.Pos(), "",
+							core.ExprString(as.Lhs[i])+" = append("+core.ExprString(src)+", …): the result may share the backing array of "+core.ExprString(src)+", which this function does not own; writes through either overwrite the other")
+					}
+					return true
+				})
+			}
+		}
+	}
+	if n == 0 {
+		c.Unknown("-", "-", "append call sites", token.NoPos, "none found")
+	}
+}
+
+func isStringType(inf *types.Info, e ast.Expr) bool {
+	if tv, ok := inf.Types[e]; ok && tv.Type != nil {
+		if b, ok := tv.Type.Underlying().(*types.Basic); ok && b.Info()&types.IsString != 0 {
+			return true
+		}
+	}
+	return false
+}
+
+func allDefsOwned(inf *types.Info, fd *ast.FuncDecl, o types.Object, ownedExpr func(ast.Expr) bool) bool {
+	ok := true
+	ast.Inspect(fd.Body, func(x ast.Node) bool {
+		switch y := x.(type) {
+		case *ast.AssignStmt:
+			for i, l := range y.Lhs {
+				if id, isId := core.Unparen(l).(*ast.Ident); isId && core.ObjOf(inf, id) == o {
+					if len(y.Lhs) != len(y.Rhs) {
+						ok = false
+					} else if call, isCall := core.Unparen(y.Rhs[i]).(*ast.CallExpr); isCall && isAppendOf(inf, call, o) {
+						// o = append(o, …) keeps ownership
+					} else if !ownedExpr(y.Rhs[i]) {
+						ok = false
+					}
+				}
+			}
+		case *ast.RangeStmt:
+			if (y.Key != nil && core.ObjOf(inf, y.Key) == o) || (y.Value != nil && core.ObjOf(inf, y.Value) == o) {
+				ok = false
+			}
+		}
+		return ok
+	})
+	return ok
+}
+
+func isAppendOf(inf *types.Info, call *ast.CallExpr, o types.Object) bool {
+	id, ok := core.Unparen(call.Fun).(*ast.Ident)
+	return ok && id.Name == "append" && len(call.Args) > 0 && core.ObjOf(inf, call.Args[0]) == o
+}
+
+func init() {
+	core.Register(&core.Rule{
+		ID:    "R08.7",
+		Title: "messages are arguments, never format strings",
+		Text: "In package restli every call of a printf-like function (last two parameters `format string, args ...any`, name ending in f) passes a constant format string: text that comes from resource code, a panic value or the peer " +
+			"(\"disk is 100% full\") concatenated into the format is re-interpreted (`%!f(MISSING)`) and the delivered message is no longer the error's message.",
+		Props: []string{"C08"},
+		Floor: map[string]int{"v2": 20, "root": 20},
+		Run:   runR087,
+	})
+	core.Register(&core.Rule{
+		ID: "R10.7", Generated: true,
+		Title: "complex-key hash and equality look at the same part of the key",
+		Text: "For every generated complex key, the receiver fields ComputeComplexKeyHash folds are a non-empty subset of the receiver fields ComplexKeyEquals compares (a method called on the whole receiver counts as all fields): " +
+			"hashing $params while comparing the key part only puts equal keys into different buckets.",
+		Props: []string{"C10", "C16"},
+		Floor: map[string]int{"corpus": 1},
+		Run:   runR107,
+	})
+	core.Register(&core.Rule{
+		ID:    "R17.9",
+		Title: "pooled objects are reset on the way in or on the way out",
+		Text: "For every sync.Pool in the module: each value taken with Get is re-initialised before any other use (a Reset/Truncate call or a whole-value assignment right after the Get), or each Put is immediately preceded by such a reset of the same object. " +
+			"A deferred Put also runs on error and panic exits, where a writer still holds the fragment of a failed serialization; the next request then starts from that fragment. " +
+			"In addition, when an alias of the pooled object was handed to another function, nothing may run after a non-deferred Put (the callee may have retained it: routing slices stored in the request context). " +
+			"A synthetic positive control must be recognised on every run.",
+		Props: []string{"C17", "C09", "C03", "C08", "C01", "C05"},
+		Floor: map[string]int{"v2": 1, "root": 1},
+		Run:   runR179,
+	})
+}
+
+func runR087(c *core.Ctx) {
+	const rel = "restli"
+	p := c.M.Pkg(rel)
+	inf := p.TypesInfo
+	n := 0
+	for _, file := range p.Syntax {
+		if strings.HasSuffix(c.M.Fset.File(file.Pos()).Name(), "_test.go") {
+			continue
+		}
+		ast.Inspect(file, func(x ast.Node) bool {
+			call, ok := x.(*ast.CallExpr)
+			if !ok {
+				return true
+			}
+			f := core.Callee(inf, call)
+			if f == nil || !strings.HasSuffix(f.Name(), "f") {
+				return true
+			}
+			sig, ok := f.Type().(*types.Signature)
+			if !ok || !sig.Variadic() || sig.Params().Len() < 2 {
+				return true
+			}
+			fi := sig.Params().Len() - 2
+			if b, ok := sig.Params().At(fi).Type().Underlying().(*types.Basic); !ok || b.Info()&types.IsString == 0 {
+				return true
+			}
+			if fi >= len(call.Args) {
+				return true
+			}
+			n++
+			fn := enclosingFuncName(file, call.Pos())
+			// a printf-like wrapper forwarding its own format parameter is checked at its call sites
+			if pv, ok := core.ObjOf(inf, call.Args[fi]).(*types.Var); ok {
+				if efd := enclosingFuncDecl(file, call.Pos()); efd != nil {
+					if ef, ok := inf.Defs[efd.Name].(*types.Func); ok && strings.HasSuffix(ef.Name(), "f") {
+						es := ef.Type().(*types.Signature)
+						if es.Variadic() && es.Params().Len() >= 2 && es.Params().At(es.Params().Len()-2) == pv {
+							c.OK(rel, fn, fmt.Sprintf("format string of %s #%d is the wrapper's own format parameter", f.Name(), ordinalIn(file, call)), call.Pos(), "")
+							return true
+						}
+					}
+				}
+			}
+			c.Check(core.ConstOf(inf, call.Args[fi]) != nil, rel, fn, fmt.Sprintf("format string of %s #%d is a constant", f.Name(), ordinalIn(file, call)), call.Pos(), "",
+				"the format argument "+core.ExprString(call.Args[fi])+" is built at run time: a % in the embedded text is interpreted as a verb and the message is altered")
+			return true
+		})
+	}
+	if n == 0 {
+		c.Unknown(rel, "-", "printf-like call sites", token.NoPos, "none found")
+	}
+}
+
+func runR107(c *core.Ctx) {
+	if c.Corpus.Failure != "" {
+		return
+	}
+	for _, g := range genModel(c) {
+		h, eq := g.Methods["ComputeComplexKeyHash"], g.Methods["ComplexKeyEquals"]
+		if h == nil && eq == nil {
+			continue
+		}
+		if h == nil || eq == nil {
+			c.Bad(g.Rel, g.Name, "complex key has both ComputeComplexKeyHash and ComplexKeyEquals", g.Spec.Pos(), "one of the two is missing")
+			continue
+		}
+		inf := g.inf()
+		fieldsOf := func(fd *ast.FuncDecl) (map[string]bool, bool) {
+			recv := recvObj(inf, fd)
+			out := map[string]bool{}
+			for _, f := range recvSelFields(inf, recv, fd.Body) {
+				out[f] = true
+			}
+			whole := false
+			ast.Inspect(fd.Body, func(n ast.Node) bool {
+				if call, ok := n.(*ast.CallExpr); ok {
+					if sel, ok := core.Unparen(call.Fun).(*ast.SelectorExpr); ok {
+						if id, ok := core.Unparen(sel.X).(*ast.Ident); ok && core.ObjOf(inf, id) == recv {
+							if _, isMethod := core.ObjOf(inf, sel).(*types.Func); isMethod {
+								whole = true
+							}
+						}
+					}
+					for _, a := range call.Args {
+						if id, ok := core.Unparen(a).(*ast.Ident); ok && core.ObjOf(inf, id) == recv {
+							whole = true
+						}
+					}
+				}
+				return true
+			})
+			return out, whole
+		}
+		hf, hWhole := fieldsOf(h)
+		ef, eWhole := fieldsOf(eq)
+		var problems []string
+		if hWhole && !eWhole {
+			problems = append(problems, "the hash is computed over the whole receiver (key and $params) while equality compares "+strings.Join(keysOf(ef), ", ")+" only")
+		}
+		for f := range hf {
+			if !ef[f] && !eWhole {
+				problems = append(problems, "field "+f+" is hashed but not compared")
+			}
+		}
+		if len(hf) == 0 && !hWhole {
+			problems = append(problems, "the hash folds no part of the key")
+		}
+		sort.Strings(problems)
+		c.Check(len(problems) == 0, g.Rel, g.Name, "complex-key hash folds a subset of what complex-key equality compares", h.Pos(), strings.Join(keysOf(hf), ", "), strings.Join(problems, "; "))
+	}
+}
+
+func keysOf(m map[string]bool) []string {
+	var out []string
+	for k := range m {
+		out = append(out, k)
+	}
+	sort.Strings(out)
+	return out
+}
+
+// pooledHygiene reports Get sites not followed by a reset (unless every Put is preceded by one) and code running
+// after a non-deferred Put when an alias was handed out.
+func pooledHygiene(fset interface {
+	Position(token.Pos) token.Position
+}, m *core.Module, inf *types.Info, body *ast.BlockStmt) (sites int, problems []string) {
+	isReset := func(st ast.Stmt, o types.Object) bool {
+		switch y := st.(type) {
+		case *ast.ExprStmt:
+			if call, ok := core.Unparen(y.X).(*ast.CallExpr); ok {
+				if sel, ok := core.Unparen(call.Fun).(*ast.SelectorExpr); ok && core.ObjOf(inf, sel.X) == o {
+					switch sel.Sel.Name {
+					case "Reset", "Truncate", "Clear":
+						return true
+					}
+				}
+			}
+		case *ast.AssignStmt:
+			for _, l := range y.Lhs {
+				if st, ok := core.Unparen(l).(*ast.StarExpr); ok && core.ObjOf(inf, st.X) == o {
+					return true
+				}
+			}
+		}
+		return false
+	}
+	par := core.Parents(body)
+	type getSite struct {
+		o    types.Object
+		stmt ast.Stmt
+	}
+	var gets []getSite
+	type putSite struct {
+		o        types.Object
+		stmt     ast.Stmt
+		deferred bool
+		call     *ast.CallExpr
+	}
+	var puts []putSite
+	ast.Inspect(body, func(x ast.Node) bool {
+		call, ok := x.(*ast.CallExpr)
+		if !ok {
+			return true
+		}
+		f := core.Callee(inf, call)
+		if f == nil {
+			return true
+		}
+		switch {
+		case core.IsMethod(f, "sync", "Pool", "Get"):
+			st := core.EnclosingStmt(par, call)
+			if as, ok := st.(*ast.AssignStmt); ok && len(as.Lhs) >= 1 {
+				gets = append(gets, getSite{core.ObjOf(inf, as.Lhs[0]), st})
+			} else {
+				gets = append(gets, getSite{nil, st})
+			}
+		case core.IsMethod(f, "sync", "Pool", "Put") && len(call.Args) == 1:
+			st := core.EnclosingStmt(par, call)
+			_, isDefer := st.(*ast.DeferStmt)
+			inLit := false
+			for q := par[call]; q != nil; q = par[q] {
+				if fl, ok := q.(*ast.FuncLit); ok {
+					if ds, ok := par[par[fl]].(*ast.DeferStmt); ok && ds != nil {
+						isDefer = true
+					}
+					inLit = true
+					_ = inLit
+					break
+				}
+			}
+			puts = append(puts, putSite{core.ObjOf(inf, call.Args[0]), st, isDefer, call})
+		}
+		return true
+	})
+	sites = len(gets) + len(puts)
+	if sites == 0 {
+		return 0, nil
+	}
+	pos := func(p token.Pos) string {
+		pp := fset.Position(p)
+		return fmt.Sprintf("%s:%d", shortFile(pp.Filename), pp.Line)
+	}
+	// (a) reset on the way in, or (b) reset right before every Put
+	resetOnPut := len(puts) > 0
+	for _, p := range puts {
+		list, idx := core.StmtListOf(par, p.stmt)
+		if p.o == nil || idx <= 0 || !isReset(list[idx-1], p.o) {
+			resetOnPut = false
+		}
+	}
+	for _, g := range gets {
+		list, idx := core.StmtListOf(par, g.stmt)
+		okIn := g.o != nil && idx >= 0 && idx+1 < len(list) && isReset(list[idx+1], g.o)
+		if !okIn && !resetOnPut {
+			problems = append(problems, pos(g.stmt.Pos())+": the object taken from the pool is used without being reset first, and not every Put is preceded by a reset: a fragment left by an earlier failed use is carried into this one")
+		}
+	}
+	// (c) nothing runs after a non-deferred Put once an alias was handed to another function
+	for _, p := range puts {
+		if p.deferred || p.o == nil {
+			continue
+		}
+		handed := ""
+		ast.Inspect(body, func(x ast.Node) bool {
+			call, ok := x.(*ast.CallExpr)
+			if !ok || call == p.call || call.Pos() > p.call.Pos() {
+				return true
+			}
+			if f := core.Callee(inf, call); f != nil && f.Pkg() != nil && f.Pkg().Path() == "sync" {
+				return true
+			}
+			for _, a := range call.Args {
+				r := rootIdent(a)
+				if r != nil && inf.Uses[r] == p.o {
+					if tv, ok := inf.Types[a]; ok && tv.Type != nil {
+						switch tv.Type.Underlying().(type) {
+						case *types.Slice, *types.Pointer, *types.Map, *types.Interface:
+							handed = core.ExprString(call.Fun) + "(… " + core.ExprString(a) + " …)"
+						}
+					}
+				}
+			}
+			return true
+		})
+		if handed == "" {
+			continue
+		}
+		after := false
+		fl := core.NewFlow(m, inf, body)
+		fl.Run(&core.Automaton{
+			Init: 0,
+			Node: func(st int, n ast.Node) int {
+				hasPut := false
+				core.WalkNoFuncLit(n, func(y ast.Node) bool {
+					if y == ast.Node(p.call) {
+						hasPut = true
+					}
+					return true
+				})
+				if st == 1 {
+					core.WalkNoFuncLit(n, func(y ast.Node) bool {
+						if call, ok := y.(*ast.CallExpr); ok {
+							if tv, ok := inf.Types[call.Fun]; ok && (tv.IsType() || tv.IsBuiltin()) {
+								return true
+							}
+							after = true
+						}
+						return true
+					})
+				}
+				if hasPut {
+					return 1
+				}
+				return st
+			},
+		})
+		if after {
+			problems = append(problems, pos(p.call.Pos())+": "+handed+" received memory of the pooled object and code still runs after this Put: whatever the callee retained (request context, response) now belongs to the next Get")
+		}
+	}
+	return sites, problems
+}
+
+func runR179(c *core.Ctx) {
+	funcs, sites := 0, 0
+	for _, p := range c.M.Roots {
+		inf := p.TypesInfo
+		rel := c.M.Rel(p.PkgPath)
+		for _, file := range p.Syntax {
+			if strings.HasSuffix(c.M.Fset.File(file.Pos()).Name(), "_test.go") {
+				continue
+			}
+			for _, d := range file.Decls {
+				fd, ok := d.(*ast.FuncDecl)
+				if !ok || fd.Body == nil {
+					continue
+				}
+				funcs++
+				n, problems := pooledHygiene(c.M.Fset, c.M, inf, fd.Body)
+				sites += n
+				if n > 0 {
+					c.Check(len(problems) == 0, rel, core.DeclName(fd), "pooled objects are reset before reuse and not used after Put", fd.Pos(), fmt.Sprintf("%d Get/Put sites", n), strings.Join(dedupe(problems), "; "))
+				}
+			}
+		}
+	}
+	c.OK("-", "-", "functions scanned for sync.Pool Get/Put", token.NoPos, fmt.Sprintf("%d functions, %d sites", funcs, sites))
+	const ctl = `package ctl
+import ("bytes"; "sync")
+var pool = sync.Pool{New: func() any { return new(bytes.Buffer) }}
+func dirty(p []byte, fail bool) (string, bool) {
+	b := pool.Get().(*bytes.Buffer)
+	defer pool.Put(b)
+	b.Write(p)
+	if fail { return "", false }
+	s := b.String()
+	b.Reset()
+	return s, true
+}
+func clean(p []byte) string {
+	b := pool.Get().(*bytes.Buffer)
+	b.Reset()
+	defer pool.Put(b)
+	b.Write(p)
+	return b.String()
+}
+func keep(dst *[][]byte) {}
+func late(dst *[][]byte, p []byte) int {
+	b := pool.Get().(*[]byte)
+	*b = (*b)[:0]
+	keepSlice(dst, *b)
+	pool.Put(b)
+	return len(p) + use(dst)
+}
+func keepSlice(dst *[][]byte, b []byte) { *dst = append(*dst, b) }
+func use(dst *[][]byte) int { return len(*dst) }`
+	f, err := parser.ParseFile(c.M.Fset, "pool_hygiene_control.go", ctl, 0)
+	if err != nil {
+		c.Unknown("-", "-", "positive control", token.NoPos, err.Error())
+		return
+	}
+	inf := &types.Info{Types: map[ast.Expr]types.TypeAndValue{}, Defs: map[*ast.Ident]types.Object{}, Uses: map[*ast.Ident]types.Object{}, Selections: map[*ast.SelectorExpr]*types.Selection{}}
+	imp := importerFunc(func(path string) (*types.Package, error) {
+		if p := c.M.AllByPath[path]; p != nil && p.Types != nil {
+			return p.Types, nil
+		}
+		return nil, fmt.Errorf("package %s not in the loaded closure", path)
+	})
+	if _, err := (&types.Config{Importer: imp}).Check("ctl", c.M.Fset, []*ast.File{f}, inf); err != nil {
+		c.Unknown("-", "-", "positive control", token.NoPos, "control does not type-check: "+err.Error())
+		return
+	}
+	got := map[string]int{}
+	for _, d := range f.Decls {
+		if fd, ok := d.(*ast.FuncDecl); ok && fd.Body != nil {
+			_, problems := pooledHygiene(c.M.Fset, c.M, inf, fd.Body)
+			got[fd.Name.Name] = len(problems)
+		}
+	}
+	c.Check(got["dirty"] > 0 && got["clean"] == 0 && got["late"] > 0, "-", "-", "positive control: dirty reuse and use-after-Put are recognised, reset-on-Get is accepted", token.NoPos,
+		fmt.Sprintf("dirty=%d clean=%d late=%d", got["dirty"], got["clean"], got["late"]), fmt.Sprintf("control verdicts dirty=%d clean=%d late=%d", got["dirty"], got["clean"], got["late"]))
+}
+
+func enclosingFuncDecl(file *ast.File, pos token.Pos) *ast.FuncDecl {
+	for _, d := range file.Decls {
+		if fd, ok := d.(*ast.FuncDecl); ok && fd.Pos() <= pos && pos <= fd.End() {
+			return fd
+		}
+	}
+	return nil
+}
+
+func init() {
+	core.Register(&core.Rule{
+		ID:    "R20.5",
+		Title: "the cleaner sees the target as given and removes the manifest at every level",
+		Text: "In CleanTargetDir (a) the directory parameter is never reassigned before it reaches the `!= \".\"` guards: a normalised path (filepath.Abs/Clean) is never equal to \".\" and the current directory would be removed once cleaning leaves it empty; " +
+			"(b) the recursive call for sub-directories goes through a function that removes the manifest file of the directory it is given (CleanTargetDir itself, or a closure containing that removal): " +
+			"a manifest below the top level otherwise survives cleaning and keeps its directory chain alive.",
+		Props: []string{"C20"},
+		Floor: map[string]int{"v2": 2, "root": 2},
+		Run:   runR205,
+	})
+	core.Register(&core.Rule{
+		ID:    "R15.7",
+		Title: "URL construction keeps no state in the client",
+		Text: "Client.formatQueryUrl and newRequest store nothing through the client (mutation summary: no assignment to a client field, no mutating method of a field such as sync.Map.Store): " +
+			"the request URL must be a function of what the resolver returned for this call; a memo keyed by less than the whole resolver answer pins the scheme and host of the first answer.",
+		Props: []string{"C15", "C17"},
+		Floor: map[string]int{"v2": 1, "root": 1},
+		Run:   runR157,
+	})
+}
+
+func runR205(c *core.Ctx) {
+	const rel = "codegen/utils"
+	inf := info(c, rel)
+	cf, fd := mustDecl(c, rel, "CleanTargetDir")
+	par := core.Parents(fd)
+	if fd.Type.Params == nil || len(fd.Type.Params.List) != 1 || len(fd.Type.Params.List[0].Names) != 1 {
+		c.Unknown(rel, "CleanTargetDir", "directory parameter", fd.Pos(), "unexpected signature")
+		return
+	}
+	param := inf.Defs[fd.Type.Params.List[0].Names[0]]
+	var reassigned []string
+	ast.Inspect(fd.Body, func(n ast.Node) bool {
+		if as, ok := n.(*ast.AssignStmt); ok {
+			for _, l := range as.Lhs {
+				if id, ok := core.Unparen(l).(*ast.Ident); ok && inf.Uses[id] == param {
+					reassigned = append(reassigned, c.M.Position(as.Pos()))
+				}
+			}
+		}
+		return true
+	})
+	c.Check(len(reassigned) == 0, rel, "CleanTargetDir", "the directory parameter reaches the \".\" guards as given", fd.Pos(), "",
+		"the parameter is reassigned at "+strings.Join(reassigned, ", ")+": after normalisation the comparison with \".\" never holds and an emptied current directory is removed")
+	// manifest removal sites: os.Remove(filepath.Join(x, <manifest const>))
+	manifest := manifestConst(c)
+	removesManifest := func(body ast.Node) bool {
+		found := false
+		ast.Inspect(body, func(n ast.Node) bool {
+			call, ok := n.(*ast.CallExpr)
+			if !ok || !core.IsFunc(core.Callee(inf, call), "os", "Remove") || len(call.Args) != 1 {
+				return true
+			}
+			if j, ok := core.Unparen(call.Args[0]).(*ast.CallExpr); ok && core.IsFunc(core.Callee(inf, j), "path/filepath", "Join") {
+				for _, a := range j.Args {
+					if core.ObjOf(inf, a) == manifest && manifest != nil {
+						found = true
+					}
+				}
+			}
+			return true
+		})
+		return found
+	}
+	closures := localClosures(inf, fd)
+	n, bad := 0, 0
+	ast.Inspect(fd.Body, func(x ast.Node) bool {
+		call, ok := x.(*ast.CallExpr)
+		if !ok || enclosingFuncLit(par, call) == nil {
+			return true
+		}
+		isDirGuard := core.GuardedByFact(inf, par, core.EnclosingStmt(par, call), func(fa core.Fact) bool {
+			hc, ok := core.Unparen(fa.Expr).(*ast.CallExpr)
+			if !ok || !fa.Val {
+				return false
+			}
+			sel, ok := core.Unparen(hc.Fun).(*ast.SelectorExpr)
+			return ok && sel.Sel.Name == "IsDir"
+		}, nil)
+		if !isDirGuard {
+			return true
+		}
+		var target ast.Node
+		if f := core.Callee(inf, call); f == cf {
+			target = fd.Body
+		} else if id, ok := core.Unparen(call.Fun).(*ast.Ident); ok {
+			if fl := closures[inf.Uses[id]]; fl != nil {
+				target = fl.Body
+			}
+		}
+		if target == nil {
+			return true
+		}
+		n++
+		// the outer function's own manifest removal sits outside the closure: look at the target body excluding nested closures
+		ok2 := false
+		if target == ast.Node(fd.Body) {
+			ok2 = removesManifest(fd.Body)
+		} else {
+			ok2 = removesManifest(target)
+		}
+		if !ok2 {
+			bad++
+			c.Bad(rel, "CleanTargetDir", fmt.Sprintf("sub-directory recursion #%d removes the manifest of the directory it enters", n), call.Pos(),
+				"the recursive call goes to a function that never removes the manifest file: manifests below the top level survive cleaning")
+		}
+		return true
+	})
+	if bad == 0 {
+		c.Check(n > 0, rel, "CleanTargetDir", "sub-directory recursion removes the manifest of every directory it enters", fd.Pos(), fmt.Sprintf("%d recursive calls", n), "no recursive call under IsDir() found")
+	}
+}
+
+func runR157(c *core.Ctx) {
+	const rel = "restli"
+	inf := info(c, rel)
+	mut := mutatingMethods(c)
+	f := mustFunc(c, rel, "(*Client).formatQueryUrl")
+	fd := c.M.Decl(f)
+	recv := recvObj(inf, fd)
+	var problems []string
+	if mut[f] {
+		problems = append(problems, "assigns a client field or calls a mutating method through the receiver")
+	}
+	// containers on the client (sync.Map, maps, caches) consulted while building the URL are state, even when race-free
+	ast.Inspect(fd.Body, func(n ast.Node) bool {
+		sel, ok := n.(*ast.SelectorExpr)
+		if !ok {
+			return true
+		}
+		id, ok := core.Unparen(sel.X).(*ast.Ident)
+		if !ok || inf.Uses[id] != recv || recv == nil {
+			return true
+		}
+		fv, ok := core.ObjOf(inf, sel).(*types.Var)
+		if !ok || !fv.IsField() {
+			return true
+		}
+		_, isMap := fv.Type().Underlying().(*types.Map)
+		if isMap || isSyncType(fv.Type()) {
+			problems = append(problems, c.M.Position(sel.Pos())+": consults the client's "+fv.Name()+" ("+fv.Type().String()+")")
+		}
+		return true
+	})
+	c.Check(len(problems) == 0, rel, "(*Client).formatQueryUrl", "keeps and consults no state on the client", fd.Pos(), "no store through the receiver, no map / sync container of the client used",
+		strings.Join(dedupe(problems), "; ")+": the URL of a request then depends on earlier requests, not only on what the resolver returned for this one")
+}
+
+// ---- alias flow shared by the pool rules -------------------------------------
+
+// aliasEngine computes, flow-insensitively inside one function, which expressions may alias a set of seed objects,
+// following module functions through per-function summaries (which results may alias which parameters), calls through
+// function values and interface methods conservatively (any non-basic, non-error result of a call that received an alias),
+// and a table of standard-library view constructors.
+type aliasEngine struct {
+	mod    *core.Module
+	memo   map[*types.Func]map[int]map[int]bool
+	inprog map[*types.Func]bool
+}
+
+type aliasState struct {
+	eng     *aliasEngine
+	inf     *types.Info
+	body    *ast.BlockStmt
+	aliases map[types.Object]bool
+	results map[types.Object]bool
+	depth   int
+}
+
+func isRefLike(t types.Type) bool {
+	if t == nil {
+		return false
+	}
+	if _, ok := t.(*types.TypeParam); ok {
+		return true
+	}
+	switch u := t.Underlying().(type) {
+	case *types.Slice, *types.Pointer, *types.Map, *types.Chan, *types.Signature:
+		return true
+	case *types.Interface:
+		return !core.IsErrorType(t)
+	case *types.Struct:
+		for i := 0; i < u.NumFields(); i++ {
+			if isRefLike(u.Field(i).Type()) {
+				return true
+			}
+		}
+	}
+	return false
+}
+
+var viewConstructors = map[string]bool{
+	"bytes.NewReader": true, "bytes.NewBuffer": true, "bufio.NewReader": true, "bufio.NewReaderSize": true, "io.NopCloser": true, "io.LimitReader": true,
+	"io.TeeReader": true, "io.MultiReader": true, "bytes.TrimSpace": true, "bytes.Trim": true, "bytes.TrimRight": true, "bytes.TrimLeft": true, "bytes.TrimPrefix": true, "bytes.TrimSuffix": true, "bytes.Fields": true, "bytes.Split": true,
+}
+
+func (e *aliasEngine) flow(inf *types.Info, ftype *ast.FuncType, body *ast.BlockStmt, seeds map[types.Object]bool, depth int) *aliasState {
+	st := &aliasState{eng: e, inf: inf, body: body, aliases: map[types.Object]bool{}, results: map[types.Object]bool{}, depth: depth}
+	for o := range seeds {
+		st.aliases[o] = true
+	}
+	if ftype != nil && ftype.Results != nil {
+		for _, f := range ftype.Results.List {
+			for _, n := range f.Names {
+				st.results[inf.Defs[n]] = true
+			}
+		}
+	}
+	for changed := true; changed; {
+		changed = false
+		mark := func(l ast.Expr) {
+			id, ok := core.Unparen(l).(*ast.Ident)
+			if !ok || id.Name == "_" {
+				return
+			}
+			o := core.ObjOf(inf, id)
+			if o == nil || st.aliases[o] {
+				return
+			}
+			if v, ok := o.(*types.Var); ok && !v.IsField() && o.Pkg() != nil && o.Parent() != o.Pkg().Scope() {
+				st.aliases[o] = true
+				changed = true
+			}
+		}
+		ast.Inspect(body, func(x ast.Node) bool {
+			switch as := x.(type) {
+			case *ast.AssignStmt:
+				if len(as.Lhs) == len(as.Rhs) {
+					for i, l := range as.Lhs {
+						if st.alias(as.Rhs[i]) {
+							mark(l)
+						}
+					}
+				} else if len(as.Rhs) == 1 {
+					if call, ok := core.Unparen(as.Rhs[0]).(*ast.CallExpr); ok {
+						ra := st.callResults(call)
+						for i, l := range as.Lhs {
+							if ra[i] {
+								mark(l)
+							}
+						}
+					}
+				}
+			case *ast.RangeStmt:
+				if st.alias(as.X) && as.Value != nil {
+					if tv, ok := inf.Types[as.Value]; ok && isRefLike(tv.Type) {
+						mark(as.Value)
+					}
+				}
+			}
+			return true
+		})
+	}
+	return st
+}
+
+func (st *aliasState) isOwnLocal(l ast.Expr) (types.Object, bool) {
+	id, ok := core.Unparen(l).(*ast.Ident)
+	if !ok {
+		return nil, false
+	}
+	o := core.ObjOf(st.inf, id)
+	if o == nil || st.results[o] || o.Parent() == nil || o.Pkg() == nil || o.Parent() == o.Pkg().Scope() {
+		return o, false
+	}
+	return o, o.Pos() >= st.body.Pos() && o.Pos() <= st.body.End()
+}
+
+func (st *aliasState) alias(e ast.Expr) bool {
+	inf := st.inf
+	switch y := core.Unparen(e).(type) {
+	case *ast.Ident:
+		return st.aliases[core.ObjOf(inf, y)]
+	case *ast.SliceExpr:
+		return st.alias(y.X)
+	case *ast.IndexExpr:
+		if tv, ok := inf.Types[y]; ok && isRefLike(tv.Type) {
+			return st.alias(y.X)
+		}
+		return false
+	case *ast.StarExpr:
+		if tv, ok := inf.Types[y]; ok && isRefLike(tv.Type) {
+			return st.alias(y.X) // a copy of the pointee still shares what it points to
+		}
+		return false
+	case *ast.UnaryExpr:
+		return y.Op == token.AND && st.alias(y.X)
+	case *ast.SelectorExpr:
+		if fv, ok := core.ObjOf(inf, y).(*types.Var); ok && fv.IsField() {
+			return st.alias(y.X) && isRefLike(fv.Type())
+		}
+	case *ast.TypeAssertExpr:
+		return st.alias(y.X)
+	case *ast.CompositeLit:
+		for _, el := range y.Elts {
+			if kv, ok := el.(*ast.KeyValueExpr); ok {
+				el = kv.Value
+			}
+			if st.alias(el) {
+				return true
+			}
+		}
+		return false
+	case *ast.CallExpr:
+		return st.callResults(y)[0]
+	}
+	return false
+}
+
+// callResults: indices of the results of call that may alias a seed.
+func (st *aliasState) callResults(call *ast.CallExpr) map[int]bool {
+	inf := st.inf
+	out := map[int]bool{}
+	if tv, ok := inf.Types[call.Fun]; ok && tv.IsType() {
+		// conversion: string(b) and []byte(s) copy; everything else re-types the same memory
+		if len(call.Args) == 1 && st.alias(call.Args[0]) {
+			if b, ok := tv.Type.Underlying().(*types.Basic); ok && b.Info()&types.IsString != 0 {
+				return out
+			}
+			if at, ok := inf.Types[call.Args[0]]; ok {
+				if b, ok := at.Type.Underlying().(*types.Basic); ok && b.Info()&types.IsString != 0 {
+					return out
+				}
+			}
+			out[0] = true
+		}
+		return out
+	}
+	if id, ok := core.Unparen(call.Fun).(*ast.Ident); ok {
+		if _, isB := inf.Uses[id].(*types.Builtin); isB {
+			if id.Name == "append" && len(call.Args) > 0 && st.alias(call.Args[0]) {
+				out[0] = true
+			}
+			return out
+		}
+	}
+	var sig *types.Signature
+	if tv, ok := inf.Types[call.Fun]; ok && tv.Type != nil {
+		sig, _ = tv.Type.Underlying().(*types.Signature)
+	}
+	if sig == nil {
+		return out
+	}
+	// which arguments (and the receiver) are aliases
+	aliasArgs := map[int]bool{}
+	for i, a := range call.Args {
+		if st.alias(a) {
+			aliasArgs[i] = true
+		}
+	}
+	recvAlias := false
+	if sel, ok := core.Unparen(call.Fun).(*ast.SelectorExpr); ok {
+		if _, isPkg := core.ObjOf(inf, sel.X).(*types.PkgName); !isPkg && st.alias(sel.X) {
+			recvAlias = true
+		}
+	}
+	if len(aliasArgs) == 0 && !recvAlias {
+		return out
+	}
+	conservative := func() {
+		for i := 0; i < sig.Results().Len(); i++ {
+			if isRefLike(sig.Results().At(i).Type()) {
+				out[i] = true
+			}
+		}
+	}
+	f := core.Callee(inf, call)
+	switch {
+	case f == nil:
+		conservative() // a function value: closure, callback, field
+	case f.Pkg() != nil && st.eng.mod != nil && st.eng.mod.InModule(f.Pkg()) && st.eng.mod.Decl(f.Origin()) != nil && st.depth < 4:
+		sum := st.eng.summary(f.Origin(), st.depth+1)
+		for j := range aliasArgs {
+			pj := j
+			if sig.Variadic() && j >= sig.Params().Len()-1 {
+				pj = sig.Params().Len() - 1
+			}
+			for r := range sum[pj] {
+				out[r] = true
+			}
+		}
+		if recvAlias {
+			for r := range sum[-1] {
+				out[r] = true
+			}
+		}
+	case f.Pkg() != nil && st.eng.mod != nil && st.eng.mod.InModule(f.Pkg()):
+		conservative() // module function without a body in reach (interface method, depth bound)
+	default:
+		if recvAlias {
+			// a method of an external type on an aliasing receiver: views (Bytes, Next, …) alias, copies of basic type do not
+			for i := 0; i < sig.Results().Len(); i++ {
+				if isRefLike(sig.Results().At(i).Type()) {
+					out[i] = true
+				}
+			}
+		}
+		if len(aliasArgs) > 0 && f.Pkg() != nil && viewConstructors[f.Pkg().Name()+"."+f.Name()] {
+			out[0] = true
+		}
+		if f.Pkg() == nil || types.IsInterface(recvTypeOf(f)) {
+			conservative()
+		}
+	}
+	return out
+}
+
+func recvTypeOf(f *types.Func) types.Type {
+	if sig, ok := f.Type().(*types.Signature); ok && sig.Recv() != nil {
+		return sig.Recv().Type()
+	}
+	return types.Typ[types.Invalid]
+}
+
+// summary: for module function f, param index (-1 = receiver) -> result indices that may alias it.
+func (e *aliasEngine) summary(f *types.Func, depth int) map[int]map[int]bool {
+	if s, ok := e.memo[f]; ok {
+		return s
+	}
+	if e.inprog[f] {
+		return nil
+	}
+	e.inprog[f] = true
+	defer delete(e.inprog, f)
+	fd := e.mod.Decl(f)
+	out := map[int]map[int]bool{}
+	if fd == nil || fd.Body == nil {
+		return out
+	}
+	inf := e.mod.InfoFor(fd.Pos())
+	if inf == nil {
+		return out
+	}
+	var params []types.Object
+	if fd.Type.Params != nil {
+		for _, fl := range fd.Type.Params.List {
+			for _, n := range fl.Names {
+				params = append(params, inf.Defs[n])
+			}
+			if len(fl.Names) == 0 {
+				params = append(params, nil)
+			}
+		}
+	}
+	one := func(idx int, o types.Object) {
+		if o == nil || !isRefLike(o.Type()) {
+			return
+		}
+		st := e.flow(inf, fd.Type, fd.Body, map[types.Object]bool{o: true}, depth)
+		ast.Inspect(fd.Body, func(n ast.Node) bool {
+			switch r := n.(type) {
+			case *ast.FuncLit:
+				return false
+			case *ast.ReturnStmt:
+				if len(r.Results) == 1 {
+					if call, ok := core.Unparen(r.Results[0]).(*ast.CallExpr); ok {
+						for i := range st.callResults(call) {
+							if out[idx] == nil {
+								out[idx] = map[int]bool{}
+							}
+							out[idx][i] = true
+						}
+					}
+				}
+				for i, res := range r.Results {
+					if st.alias(res) {
+						if out[idx] == nil {
+							out[idx] = map[int]bool{}
+						}
+						out[idx][i] = true
+					}
+				}
+				if len(r.Results) == 0 && fd.Type.Results != nil {
+					i := 0
+					for _, fl := range fd.Type.Results.List {
+						for _, nm := range fl.Names {
+							if st.aliases[inf.Defs[nm]] {
+								if out[idx] == nil {
+									out[idx] = map[int]bool{}
+								}
+								out[idx][i] = true
+							}
+							i++
+						}
+					}
+				}
+			}
+			return true
+		})
+	}
+	for i, p := range params {
+		one(i, p)
+	}
+	if fd.Recv != nil {
+		one(-1, recvObj(inf, fd))
+	}
+	e.memo[f] = out
+	return out
+}
+
+func init() {
+	core.Register(&core.Rule{
+		ID:    "R07.10",
+		Title: "patch operators are skipped at every depth of the matcher",
+		Text: "Every recursive descent of the exclusion matcher (a call that passes a tail of the path) targets a function that itself steps over the $set / $delete operators (it compares the path head with both operator constants): " +
+			"operators occur at any depth of a partial update (patch/inner/$set/detail), so a helper that recurses into itself without the skip matches nothing below a nested operator.",
+		Props: []string{"C07", "C11"},
+		Floor: map[string]int{"v2": 1, "root": 1},
+		Run:   runR0710,
+	})
+	core.Register(&core.Rule{
+		ID:    "R01.8",
+		Title: "rune offsets are not element indices",
+		Text: "In the codec packages, the key of a `for i, c := range <string>` loop (the byte offset of the rune) is never used to index or slice anything but that same string: " +
+			"a bytes value is one character per byte, and writing data[i] = byte(c) leaves gaps and a wrong length as soon as a character above 0x7F occurs (a fixed of the wrong size is then accepted, a right-sized one rejected).",
+		Props: []string{"C01", "C11", "C03"},
+		Floor: map[string]int{"v2": 1, "root": 1},
+		Run:   runR018,
+	})
+	core.Register(&core.Rule{
+		ID:    "R12.7",
+		Title: "multi-key comparators are lexicographic",
+		Text: "Every less-function handed to sort.Slice / sort.SliceStable / slices.SortFunc in the generator and runtime that compares more than one key has the lexicographic shape: an early `return true` under `a < b` is matched by the opposite exit (`a > b` → false, or the test is `a != b` → `return a < b`). " +
+			"`if a < b {return true}; return c < d` is not a strict weak ordering; sort then returns an order that depends on the initial (map) order and generation is no longer deterministic.",
+		Props: []string{"C12", "C09"},
+		Floor: map[string]int{"v2": 5, "root": 3},
+		Run:   runR127,
+	})
+	core.Register(&core.Rule{
+		ID:    "R12.8",
+		Title: "slices taken from the end are guarded in the generator",
+		Text: "In the generator packages every slice expression whose lower bound has the form len(x)-n (n not a constant) is dominated by a test that len(x) is at least n (`len(x) > n`, `>= n`, `n < len(x)`, `n <= len(x)`): " +
+			"name-clash resolution walks namespaces of different depth, and an unguarded ns[len(ns)-n:] panics for the shallower one — generation is not total.",
+		Props:   []string{"C12"},
+		Floor:   map[string]int{"v2": 1},
+		Modules: []string{"v2"},
+		Run:     runR128,
+	})
+	core.Register(&core.Rule{
+		ID:    "R14.5",
+		Title: "bodies are read whole or rejected, never silently truncated",
+		Text: "Package restli never wraps a request or response body in io.LimitReader / io.LimitedReader / io.CopyN: those end the stream with a clean EOF at the limit, so a long tunnelled query or body is cut without an error and reaches resource code altered. " +
+			"(http.MaxBytesReader, which fails the read, is the accepted way to bound memory.)",
+		Props: []string{"C14", "C02"},
+		Floor: map[string]int{"v2": 1, "root": 1},
+		Run:   runR145,
+	})
+	core.Register(&core.Rule{
+		ID:    "R16.8",
+		Title: "search flags are monotone",
+		Text: "In the key-set and equality packages, a boolean declared outside a loop and assigned inside it is only ever set to the constant true there (or the loop is left right after the assignment): " +
+			"`found = equals(k, key)` in every iteration lets a later candidate of the same hash bucket erase an earlier match, so colliding keys are reported unknown and duplicates accepted.",
+		Props: []string{"C16", "C10"},
+		Floor: map[string]int{"v2": 2, "root": 2},
+		Run:   runR168,
+	})
+}
+
+func runR0710(c *core.Ctx) {
+	const rel = "restlicodec"
+	inf, fd, _, pathObj := matcherDecl(c)
+	if fd == nil {
+		c.Unknown(rel, "genericMatches", "matcher shape", token.NoPos, "not found")
+		return
+	}
+	skipsOperators := func(body ast.Node) bool {
+		seen := map[string]bool{}
+		ast.Inspect(body, func(n ast.Node) bool {
+			if be, ok := n.(*ast.BinaryExpr); ok && be.Op == token.EQL {
+				for _, side := range []ast.Expr{be.X, be.Y} {
+					if v := core.ConstOf(inf, side); v != nil {
+						seen[v.ExactString()] = true
+					}
+				}
+			}
+			if cc, ok := n.(*ast.CaseClause); ok {
+				for _, e := range cc.List {
+					if v := core.ConstOf(inf, e); v != nil {
+						seen[v.ExactString()] = true
+					}
+				}
+			}
+			return true
+		})
+		return seen[`"$set"`] && seen[`"$delete"`]
+	}
+	// the functions of the matcher: genericMatches and the module functions it (transitively) hands the path to
+	visited := map[*types.Func]bool{}
+	var work []*ast.FuncDecl
+	work = append(work, fd)
+	self, _ := inf.Defs[fd.Name].(*types.Func)
+	visited[self] = true
+	n, bad := 0, 0
+	for len(work) > 0 {
+		cur := work[0]
+		work = work[1:]
+		var curPath types.Object
+		if cur == fd {
+			curPath = pathObj
+		} else if cur.Type.Params != nil && len(cur.Type.Params.List) >= 2 && len(cur.Type.Params.List[1].Names) == 1 {
+			curPath = inf.Defs[cur.Type.Params.List[1].Names[0]]
+		}
+		ast.Inspect(cur.Body, func(x ast.Node) bool {
+			call, ok := x.(*ast.CallExpr)
+			if !ok {
+				return true
+			}
+			f := core.Callee(inf, call)
+			if f == nil || f.Pkg() == nil || !c.M.InModule(f.Pkg()) {
+				return true
+			}
+			passesTail, passesPath := false, false
+			for _, a := range call.Args {
+				if se, ok := core.Unparen(a).(*ast.SliceExpr); ok && core.ObjOf(inf, se.X) == curPath && curPath != nil && se.Low != nil {
+					passesTail = true
+				}
+				if core.ObjOf(inf, a) == curPath && curPath != nil {
+					passesPath = true
+				}
+			}
+			if !passesTail && !passesPath {
+				return true
+			}
+			target := c.M.Decl(f.Origin())
+			if target == nil {
+				return true
+			}
+			if !visited[f.Origin()] {
+				visited[f.Origin()] = true
+				work = append(work, target)
+			}
+			if passesTail {
+				n++
+				if !skipsOperators(target.Body) {
+					bad++
+					c.Bad(rel, core.DeclName(cur), fmt.Sprintf("descent #%d re-enters a function that skips $set / $delete", n), call.Pos(),
+						"the tail of the path is handed to "+f.Name()+", which never compares the head with the operator constants: nothing below an operator nested deeper than the first segment is matched")
+				}
+			}
+			return true
+		})
+	}
+	if bad == 0 {
+		c.Check(n > 0, rel, "genericMatches", "every recursive descent re-enters a function that skips $set / $delete", fd.Pos(), fmt.Sprintf("%d descents in %d functions", n, len(visited)), "no recursive descent found: how are nested paths matched?")
+	}
+}
+
+func runR018(c *core.Ctx) {
+	total := 0
+	for _, rel := range []string{"restlicodec", "restlidata", "restli", "fnv1a"} {
+		p := c.M.Pkg(rel)
+		if p == nil {
+			continue
+		}
+		inf := p.TypesInfo
+		for _, fd := range c.M.FuncDecls(rel) {
+			if fd.Body == nil || strings.HasSuffix(c.M.Fset.File(fd.Pos()).Name(), "_test.go") {
+				continue
+			}
+			ast.Inspect(fd.Body, func(x ast.Node) bool {
+				rs, ok := x.(*ast.RangeStmt)
+				if !ok || rs.Key == nil {
+					return true
+				}
+				b, ok := inf.Types[rs.X].Type.Underlying().(*types.Basic)
+				if !ok || b.Info()&types.IsString == 0 {
+					return true
+				}
+				key := core.ObjOf(inf, rs.Key)
+				if key == nil || key.Name() == "_" {
+					return true
+				}
+				total++
+				var problems []string
+				ast.Inspect(rs.Body, func(y ast.Node) bool {
+					var base ast.Expr
+					var idxs []ast.Expr
+					switch z := y.(type) {
+					case *ast.IndexExpr:
+						base, idxs = z.X, []ast.Expr{z.Index}
+					case *ast.SliceExpr:
+						base, idxs = z.X, []ast.Expr{z.Low, z.High}
+					default:
+						return true
+					}
+					if core.SameExpr(inf, base, rs.X) {
+						return true
+					}
+					for _, ix := range idxs {
+						if ix != nil && mentions(inf, ix, key) {
+							problems = append(problems, core.ExprString(base)+" is indexed with the rune offset "+key.Name())
+						}
+					}
+					return true
+				})
+				c.Check(len(problems) == 0, rel, core.DeclName(fd), fmt.Sprintf("range over the string %s #%d keeps its byte offset to itself", core.ExprString(rs.X), ordinal(fd, rs)), rs.Pos(), "",
+					strings.Join(dedupe(problems), "; ")+": offsets jump by the UTF-8 width of each character, the element count does not")
+				return true
+			})
+		}
+	}
+	c.OK("-", "-", "string range loops with a key inspected", token.NoPos, fmt.Sprintf("%d", total))
+}
+
+func runR127(c *core.Ctx) {
+	n := 0
+	for _, p := range c.M.Roots {
+		inf := p.TypesInfo
+		rel := c.M.Rel(p.PkgPath)
+		for _, file := range p.Syntax {
+			fname := c.M.Fset.File(file.Pos()).Name()
+			if strings.HasSuffix(fname, "_test.go") || strings.HasSuffix(fname, ".gr.go") {
+				continue
+			}
+			ast.Inspect(file, func(x ast.Node) bool {
+				call, ok := x.(*ast.CallExpr)
+				if !ok {
+					return true
+				}
+				f := core.Callee(inf, call)
+				if f == nil || f.Pkg() == nil {
+					return true
+				}
+				isSort := (f.Pkg().Path() == "sort" && (f.Name() == "Slice" || f.Name() == "SliceStable")) || (f.Pkg().Path() == "slices" && strings.HasPrefix(f.Name(), "Sort"))
+				if !isSort || len(call.Args) < 2 {
+					return true
+				}
+				lit, ok := core.Unparen(call.Args[len(call.Args)-1]).(*ast.FuncLit)
+				if !ok {
+					return true
+				}
+				n++
+				// early `return true` under a strict comparison
+				var problems []string
+				list := lit.Body.List
+				for i, st := range list {
+					ifs, ok := st.(*ast.IfStmt)
+					if !ok || ifs.Else != nil || len(ifs.Body.List) != 1 {
+						continue
+					}
+					ret, ok := ifs.Body.List[0].(*ast.ReturnStmt)
+					if !ok || len(ret.Results) != 1 {
+						continue
+					}
+					be, ok := core.Unparen(ifs.Cond).(*ast.BinaryExpr)
+					if !ok || (be.Op != token.LSS && be.Op != token.GTR) {
+						continue
+					}
+					v := core.ConstOf(inf, ret.Results[0])
+					if v == nil || i == len(list)-1 {
+						continue
+					}
+					// look for the opposite exit on the same operands among the remaining statements
+					matched := false
+					for _, later := range list[i+1:] {
+						if l2, ok := later.(*ast.IfStmt); ok {
+							if b2, ok := core.Unparen(l2.Cond).(*ast.BinaryExpr); ok && core.SameExpr(inf, b2.X, be.X) && core.SameExpr(inf, b2.Y, be.Y) {
+								if (be.Op == token.LSS && (b2.Op == token.GTR || b2.Op == token.NEQ)) || (be.Op == token.GTR && (b2.Op == token.LSS || b2.Op == token.NEQ)) {
+									matched = true
+								}
+							}
+							if b2, ok := core.Unparen(l2.Cond).(*ast.BinaryExpr); ok && core.SameExpr(inf, b2.X, be.Y) && core.SameExpr(inf, b2.Y, be.X) && b2.Op == be.Op {
+								matched = true
+							}
+						}
+					}
+					if !matched {
+						problems = append(problems, "returns "+v.ExactString()+" under "+core.ExprString(ifs.Cond)+" and then compares other keys without excluding the opposite case")
+					}
+				}
+				c.Check(len(problems) == 0, rel, enclosingFuncName(file, call.Pos()), fmt.Sprintf("comparator of %s #%d is a strict weak ordering by shape", f.Name(), ordinalIn(file, call)), call.Pos(), "",
+					strings.Join(problems, "; ")+": not a strict weak ordering, the sorted order depends on the input order")
+				return true
+			})
+		}
+	}
+	if n == 0 {
+		c.Unknown("-", "-", "sort comparators", token.NoPos, "none found")
+	}
+}
+
+func runR128(c *core.Ctx) {
+	n := 0
+	for _, rel := range []string{"codegen/utils", "codegen/types", "codegen/resources", "cmd"} {
+		p := c.M.Pkg(rel)
+		if p == nil {
+			continue
+		}
+		inf := p.TypesInfo
+		for _, file := range p.Syntax {
+			if strings.HasSuffix(c.M.Fset.File(file.Pos()).Name(), "_test.go") {
+				continue
+			}
+			par := core.Parents(file)
+			ast.Inspect(file, func(x ast.Node) bool {
+				se, ok := x.(*ast.SliceExpr)
+				if !ok || se.Low == nil {
+					return true
+				}
+				be, ok := core.Unparen(se.Low).(*ast.BinaryExpr)
+				if !ok || be.Op != token.SUB || !isLenOf(inf, be.X, se.X) || core.ConstOf(inf, be.Y) != nil {
+					return true
+				}
+				n++
+				guard := func(f core.Fact) bool {
+					g, ok := core.Unparen(f.Expr).(*ast.BinaryExpr)
+					if !ok {
+						return false
+					}
+					op := g.Op
+					a, b := g.X, g.Y
+					if !f.Val {
+						switch op {
+						case token.LSS:
+							op = token.GEQ
+						case token.LEQ:
+							op = token.GTR
+						case token.GTR:
+							op = token.LEQ
+						case token.GEQ:
+							op = token.LSS
+						default:
+							return false
+						}
+					}
+					// len(x) > n, len(x) >= n
+					if (op == token.GTR || op == token.GEQ) && isLenOf(inf, a, se.X) && core.SameExpr(inf, b, be.Y) {
+						return true
+					}
+					// n < len(x), n <= len(x)
+					if (op == token.LSS || op == token.LEQ) && isLenOf(inf, b, se.X) && core.SameExpr(inf, a, be.Y) {
+						return true
+					}
+					return false
+				}
+				ok2 := core.GuardedByFactAcrossClosures(inf, par, core.EnclosingStmt(par, se), guard, nil)
+				c.Check(ok2, rel, enclosingFuncName(file, se.Pos()), fmt.Sprintf("slice %s is taken under a length test", core.ExprString(se)), se.Pos(), "",
+					"no dominating test that "+core.ExprString(be.X)+" is at least "+core.ExprString(be.Y)+": a shorter "+core.ExprString(se.X)+" makes the generator panic")
+				return true
+			})
+		}
+	}
+	if n == 0 {
+		c.Unknown("-", "-", "slice expressions of the form x[len(x)-n:]", token.NoPos, "none found in the generator")
+	}
+}
+
+func runR145(c *core.Ctx) {
+	const rel = "restli"
+	p := c.M.Pkg(rel)
+	inf := p.TypesInfo
+	reads, bad := 0, 0
+	for _, file := range p.Syntax {
+		if strings.HasSuffix(c.M.Fset.File(file.Pos()).Name(), "_test.go") {
+			continue
+		}
+		ast.Inspect(file, func(x ast.Node) bool {
+			switch y := x.(type) {
+			case *ast.CallExpr:
+				f := core.Callee(inf, y)
+				if f == nil || f.Pkg() == nil {
+					return true
+				}
+				switch f.Pkg().Path() + "." + f.Name() {
+				case "io.Copy", "io.ReadAll", "io/ioutil.ReadAll":
+					reads++
+				case "io.LimitReader", "io.CopyN":
+					bad++
+					c.Bad(rel, enclosingFuncName(file, y.Pos()), fmt.Sprintf("no truncating reader #%d", bad), y.Pos(), f.FullName()+" ends the stream with a clean EOF at its limit: the rest of the body is dropped without an error")
+				}
+				if core.IsMethod(f, "bytes", "Buffer", "ReadFrom") {
+					reads++
+				}
+			case *ast.CompositeLit:
+				if nn := namedOf(inf.Types[y].Type); nn != nil && nn.Obj().Pkg() != nil && nn.Obj().Pkg().Path() == "io" && nn.Obj().Name() == "LimitedReader" {
+					bad++
+					c.Bad(rel, enclosingFuncName(file, y.Pos()), fmt.Sprintf("no truncating reader #%d", bad), y.Pos(), "io.LimitedReader ends the stream with a clean EOF at its limit")
+				}
+			}
+			return true
+		})
+	}
+	if bad == 0 {
+		c.Check(reads > 0, rel, "-", "bodies are read to the end by io.Copy / ReadAll / ReadFrom with no truncating wrapper", token.NoPos, fmt.Sprintf("%d whole-body reads", reads), "no body read found")
+	}
+}
+
+func runR168(c *core.Ctx) {
+	n := 0
+	for _, rel := range []string{"restli/batchkeyset", "restli/equals"} {
+		p := c.M.Pkg(rel)
+		if p == nil {
+			continue
+		}
+		inf := p.TypesInfo
+		for _, fd := range c.M.FuncDecls(rel) {
+			if fd.Body == nil || strings.HasSuffix(c.M.Fset.File(fd.Pos()).Name(), "_test.go") {
+				continue
+			}
+			par := core.Parents(fd)
+			ast.Inspect(fd.Body, func(x ast.Node) bool {
+				var body *ast.BlockStmt
+				switch l := x.(type) {
+				case *ast.RangeStmt:
+					body = l.Body
+				case *ast.ForStmt:
+					body = l.Body
+				default:
+					return true
+				}
+				ast.Inspect(body, func(y ast.Node) bool {
+					if _, isLit := y.(*ast.FuncLit); isLit {
+						return false
+					}
+					as, ok := y.(*ast.AssignStmt)
+					if !ok || as.Tok == token.DEFINE || len(as.Lhs) != len(as.Rhs) {
+						return true
+					}
+					for i, l := range as.Lhs {
+						o := core.ObjOf(inf, l)
+						if o == nil || o.Pos() >= x.Pos() && o.Pos() <= x.End() {
+							continue // declared inside the loop
+						}
+						if b, ok := o.Type().Underlying().(*types.Basic); !ok || b.Kind() != types.Bool {
+							continue
+						}
+						n++
+						v := core.ConstOf(inf, as.Rhs[i])
+						okSite := v != nil
+						if !okSite {
+							// accepted when the loop is left right after a positive outcome: the statement (or the if it
+							// initialises) is followed by break / return under the flag
+							okSite = leavesLoopAfter(inf, par, as, o)
+						}
+						c.Check(okSite, rel, core.DeclName(fd), fmt.Sprintf("flag %s assigned in a loop #%d is monotone", o.Name(), ordinal(fd, as)), as.Pos(), "",
+							o.Name()+" = "+core.ExprString(as.Rhs[i])+" on every iteration, and the loop goes on: a later element resets an earlier positive outcome")
+					}
+					return true
+				})
+				return true
+			})
+		}
+	}
+	if n == 0 {
+		c.OK("-", "-", "no boolean flag is assigned inside a loop in the key-set / equality packages", token.NoPos, "")
+	}
+}
+
+// leavesLoopAfter: the assignment is the init (or a statement) of an if whose body, entered when the flag is true,
+// ends in break or return; or the next statement is such an if.
+func leavesLoopAfter(inf *types.Info, par map[ast.Node]ast.Node, as *ast.AssignStmt, flag types.Object) bool {
+	exits := func(ifs *ast.IfStmt) bool {
+		id, ok := core.Unparen(ifs.Cond).(*ast.Ident)
+		if !ok || core.ObjOf(inf, id) != flag || len(ifs.Body.List) == 0 {
+			return false
+		}
+		switch last := ifs.Body.List[len(ifs.Body.List)-1].(type) {
+		case *ast.BranchStmt:
+			return last.Tok == token.BREAK
+		case *ast.ReturnStmt:
+			return true
+		}
+		return false
+	}
+	if ifs, ok := par[as].(*ast.IfStmt); ok && ifs.Init == ast.Stmt(as) {
+		return exits(ifs)
+	}
+	list, idx := core.StmtListOf(par, as)
+	if idx >= 0 && idx+1 < len(list) {
+		if ifs, ok := list[idx+1].(*ast.IfStmt); ok {
+			return exits(ifs)
+		}
+	}
+	return false
 }
